@@ -109,6 +109,28 @@ def names_rule(ctx, facts, cfg):
                               site=t.get('at'), config=cfg)
     if len(rdata_calls) < 4:
         ctx.violation(rid, '<floor>', 'section walks', 'found %d uncompress_rdata call sites in the decompressor, expected 4' % len(rdata_calls), kind='below-floor')
+    # anywhere below the decompressor: no append copies a whole wire name verbatim (a source range whose extent comes from raw_name_len /
+    # name_slice): the wire form of a name may end in a pointer, whatever its last byte looks like
+    seen_, _, _, _ = facts.reach([UW])
+    for k in sorted(seen_):
+        if not k.startswith(('compress::', 'rr_iterator::')):
+            continue
+        g = facts.fns[k]
+        gdefs = F.single_defs(g)
+        for bi, b in F.blocks(g):
+            t = b['term']
+            if t['k'] != 'call' or (F.call_path(t) or '').split('::')[-1] not in ('extend_from_slice', 'extend') or len(t['args']) < 2:
+                continue
+            rs = F.roots(g, gdefs, t['args'][1])
+            via = []
+            for r in rs:
+                if r[0] == 'call' and 'ndex' in str(r[1]) and len(r[2]['args']) > 1:
+                    via += F.roots(g, gdefs, r[2]['args'][1])
+                else:
+                    via.append(r)
+            if any(r[0] == 'call' and (str(r[1]).endswith('Compress::raw_name_len') or str(r[1]).endswith('::name_slice')) for r in via):
+                ctx.violation(rid, k, 'wire-name-copied-verbatim', '%s appends to the decompressed output a range of the input whose extent is the wire length of a name (raw_name_len / name_slice) at %s: '
+                              'a name ending in a compression pointer is carried over unexpanded' % (k.split('::')[-1], t.get('at')), site=t.get('at'), config=cfg)
     # the expanding copier itself: copy_raw_name appends to its output only through copy_uncompressed_name; bytes taken straight from the
     # packet are allowed only where the packet is known to hold no pointers
     keys = facts.inst_keys('rr_iterator::TypedIterable::copy_raw_name')
@@ -162,6 +184,7 @@ def run(ctx):
         facts = ctx.facts(cfg)
         reemit.dispatch_rule(ctx, facts, cfg, 'C05.a', UR, 'decompression')
         reemit.accounting_rule(ctx, facts, cfg, 'C05.b', UR, havoc=8)
+        reemit.rewrite_on_every_path_rule(ctx, facts, cfg, 'C05.b', UR, ('Compress::copy_uncompressed_name',), floor=3)
         reemit.fixed_parts_rule(ctx, facts, cfg, 'C05.b', UR)
         reemit.cursor_rule(ctx, facts, cfg, 'C05.c', [UW, 'compress::Compress::compress', 'renamer::Renamer::rename_with_raw_names'])
         translation_rule(ctx, facts, cfg)
